@@ -24,6 +24,10 @@ theorem table_as_modelled :
 
 example : accessUpdater "bogus" = none := by decide
 
+/-- the fallback name `Store._get_updater` uses in the source (extracted) is the one the model falls
+back to (`VivModel/Store.lean`: `accessUpdater "accumulate"`) -/
+theorem default_updater_as_in_source : Generated.getUpdaterConsts = ["accumulate"] := by decide
+
 /-! ## Which updater, which value -/
 
 /-- **Precedence**: the updater named in the update, else the declared one, else accumulate. -/
